@@ -1088,9 +1088,17 @@ impl ActTask for Arc<Task> {
 //@@ opt traitpost attr="#[verifier::exec_allows_no_decreases_clause]"
 //@@ rw R7 `& parent . clone ( )` => `&parent`
 //@@ end
-//@@ extract file=acts/src/scheduler/process/task.rs in="impl ActTask for Arc<Task>" item="fn review" name=Arc<Task>::review props=C02,C03
+//@@ extract file=acts/src/scheduler/process/task.rs in="impl ActTask for Arc<Task>" item="fn review" name=Arc<Task>::review props=C02,C03,C08
 //@@ opt traitpost attr="#[verifier::exec_allows_no_decreases_clause]"
 //@@ rw R7 `& parent . clone ( )` => `&parent`
+//@@ proof after=set_task#1
+        let ghost hb = *h;
+//@@ proof before=emit_task#1
+            proof {
+                //# M6-a-review-reports-a-task-only-if-this-very-review-changed-its-state [C08]
+                // ("at most one terminal message per task": a parent that already ended and was reported is not reported again when a late child reviews it)
+                assert(hb.st(self.id@) != h.st(self.id@));
+            }
 //@@ end
 //@@ extract file=acts/src/scheduler/process/task.rs in="impl ActTask for Arc<Task>" item="fn error" name=Arc<Task>::error props=C02,C06
 //@@ opt traitpost
